@@ -5,14 +5,35 @@ from vcommon.coqrun import cZ, clist, cstr
 from gen import kernels, tweezer_prog
 
 COQ_IMPORT = "From BS Require Import Core.Show Core.Base Model.Inject.\n"
-LK = {"LStatic": ("spec.get_static_trap", "zone_id", ["traps", "aux"]), "LSpecial": ("spec.get_special_grid", "grid_id", ["park"]),
-      "LInt": ("spec.get_int_constant", "constant_id", ["rows"]), "LFloat": ("spec.get_float_constant", "constant_id", ["pitch"])}
+# names per lookup kind; "both" names a static trap AND a (different) special grid; zero / origin are constants whose value is falsy;
+# "dup" is an int constant AND a (different) float constant
+LK = {"LStatic": ("spec.get_static_trap", "zone_id", ["traps", "aux", "both"]), "LSpecial": ("spec.get_special_grid", "grid_id", ["park", "both"]),
+      "LInt": ("spec.get_int_constant", "constant_id", ["rows", "zero", "dup"]), "LFloat": ("spec.get_float_constant", "constant_id", ["pitch", "origin", "dup"])}
+# names the spec does not know UNDER THAT KIND (some are known under another kind)
+ABSENT = {"LStatic": ["nowhere", "park"], "LSpecial": ["nowhere", "traps"], "LInt": ["nowhere", "pitch"], "LFloat": ["nowhere", "rows"]}
+
+
+def c06_spec():
+    from bloqade.geometry.dialects.grid import Grid
+    from bloqade.shuttle.arch import ArchSpec, Layout
+    traps = Grid.from_positions([0.0, 2.0, 4.0, 6.5], [0.0, 3.0, 6.0])
+    aux = Grid.from_positions([20.0, 21.0, 22.0], [1.0, 2.0, 3.0, 4.0])
+    both_t = Grid.from_positions([40.0, 41.0], [0.0, 1.0])
+    park = Grid.from_positions([-4.0, -2.0], [0.5, 1.5])
+    both_s = Grid.from_positions([-41.5, -40.0], [7.0, 9.0])
+    lay = Layout(static_traps={"traps": traps, "aux": aux, "both": both_t}, fillable={"traps"}, has_cz={"traps"},
+                 has_local={"aux"}, special_grid={"park": park, "both": both_s})
+    return ArchSpec(layout=lay, float_constants={"pitch": 2.5, "origin": 0.0, "dup": 4.5}, int_constants={"rows": 3, "zero": 0, "dup": 4})
+
+
+import re
+ABSENT_RE = re.compile("|".join(re.escape(f'{LK[k][0]}({LK[k][1]}="{nm}")') for k in LK for nm in ABSENT[k]))
 
 
 # ---------- expression trees ----------
 def rnd_lookup(rng, p_absent=0.06):
     k = rng.choice(list(LK))
-    name = "nowhere" if rng.random() < p_absent else rng.choice(LK[k][2])
+    name = rng.choice(ABSENT[k]) if rng.random() < p_absent else rng.choice(LK[k][2])
     return ("lookup", k, name)
 
 
@@ -170,8 +191,9 @@ def coq_method(m):
 
 def spec_coq(S):
     tok = lambda n: cstr("G_" + n)
+    ptok = lambda n: cstr("P_" + n)
     return (f"(mkspec {clist([f'({cstr(n)}, {tok(n)})' for n in S.layout.static_traps])} "
-            f"{clist([f'({cstr(n)}, {tok(n)})' for n in S.layout.special_grid])} "
+            f"{clist([f'({cstr(n)}, {ptok(n)})' for n in S.layout.special_grid])} "
             f"{clist([f'({cstr(n)}, {cZ(v)})' for n, v in S.int_constants.items()])} "
             f"{clist([f'({cstr(n)}, {cstr(repr(v))})' for n, v in S.float_constants.items()])})")
 
@@ -180,9 +202,12 @@ def show_value(v, S):
     from bloqade.geometry.dialects.grid import Grid
     from kirin import ir
     if isinstance(v, Grid):
-        for n, g in list(S.layout.static_traps.items()) + list(S.layout.special_grid.items()):
+        for n, g in S.layout.static_traps.items():
             if g == v:
                 return "G_" + n
+        for n, g in S.layout.special_grid.items():
+            if g == v:
+                return "P_" + n
         return "G?"
     if isinstance(v, bool):
         return "1" if v else "0"
@@ -203,16 +228,18 @@ def reflect_handled(ctx, S):
     from bloqade.shuttle.dialects import spec as spec_d
     handled, absent_left = {}, {}
     cls = {"LStatic": spec_d.GetStaticTrap, "LSpecial": spec_d.GetSpecialGrid, "LInt": spec_d.GetIntConstant, "LFloat": spec_d.GetFloatConstant}
+    not_handled = []
     for k, (f, kw, names) in LK.items():
-        for present in (True, False):
-            nm = names[0] if present else "nowhere"
+        handled[k], absent_left[k] = True, True
+        for present, nm in [(True, n) for n in names] + [(False, n) for n in ABSENT[k]]:
             src = f'@move(arch_spec=S, fold=False)\ndef main():\n    return {f}({kw}="{nm}")\n'
             m = kernels.define(src, S=S)["main"]
             left = [s for s in m.callable_region.walk() if isinstance(s, cls[k])]
-            if present:
-                handled[k] = not left
-            else:
-                absent_left[k] = bool(left)
+            if present and left:
+                handled[k] = False
+                not_handled.append((k, nm))
+            if not present and not left:
+                absent_left[k] = False
     body = coqrun.HEADER + COQ_IMPORT
     body += "Definition handled (k : lk) : bool := match k with " + " ".join(f"| {k} => {'true' if v else 'false'}" for k, v in handled.items()) + " end.\n"
     body += "Lemma inject_complete : forall k, handled k = true.\nProof. intros k; destruct k; reflexivity. Qed.\n"
@@ -220,17 +247,16 @@ def reflect_handled(ctx, S):
     ctx.obligation("Gen_C06: inject_complete (InjectSpecRule replaces every lookup kind whose name the spec knows)", ok, log[-400:])
     ctx.obligation("reflected: a lookup of a name absent from the spec is left in place (never given a value)", all(absent_left.values()), str(absent_left))
     ctx.extra["reflected_handled"] = handled
-    for k, v in handled.items():
-        if not v:
-            ctx.fail({"kind": "lookup-kind-not-injected", "lookup": k}, {"lookup": LK[k][0]},
-                     f"InjectSpecRule leaves {LK[k][0]} lookups in the compiled kernel; the plain interpreter cannot evaluate them")
+    for k, nm in not_handled:
+        ctx.fail({"kind": "lookup-kind-not-injected", "lookup": k}, {"lookup": LK[k][0], "name": nm},
+                 f"InjectSpecRule leaves {LK[k][0]}({nm!r}) in the compiled kernel although the spec knows the name; the plain interpreter cannot evaluate it")
     return handled
 
 
 def run(ctx):
     from bloqade.shuttle.arch import ArchSpecInterpreter
     from bloqade.shuttle.prelude import move
-    S = tweezer_prog.harness_spec()
+    S = c06_spec()
     handled = reflect_handled(ctx, S)
     ctx.rule = ("tables of 2-4 @move kernels (root + subroutines, some recursive with a depth parameter, closures capturing looked-up values, "
                 "closures returned from recursive subroutines and called by the root) mixing the four lookup kinds (6% absent names) with "
@@ -258,14 +284,18 @@ def run(ctx):
         ta = show_value(a[1], S) if a[0] == "ok" else "ERR"
         tb = show_value(b[1], S) if b[0] == "ok" else "ERR"
         src = py_table(meths, "@move")
-        has_absent = "nowhere" in src
+        has_absent = bool(ABSENT_RE.search(src))
         ctx.hist("outcome", ("both fail" if ta == tb == "ERR" else "same value" if ta == tb else "DIFFER") + (" (absent name)" if has_absent else ""))
         if ta != tb:
             kinds = sorted({k for k in LK if LK[k][0] in src})
             ctx.fail({"kind": "behaviour-differs", "compiled": ta[:60], "spec_interpreter": tb[:60], "fold": fold},
                      {"src": src, "fold": fold}, f"compiled-with-spec kernel returns {ta[:100]} but the unspecialised kernel against the spec returns {tb[:100]}")
-        if "G_" in tb:
+        if "G_" in tb or "P_" in tb:
             ctx.nt(src)
+        for k in LK:
+            for nm in LK[k][2] + ABSENT[k]:
+                if f'{LK[k][0]}({LK[k][1]}="{nm}")' in src:
+                    ctx.hist("lookups generated", f"{k}:{nm}")
         cases.append((clist([coq_method(m) for m in meths]), ta, tb, src))
         if i == 0:
             ctx.sample({"kernels": src, "result": tb})
@@ -296,7 +326,7 @@ def replay(data):
         return True, "re-run bin/check C06 (reflected table)"
     from bloqade.shuttle.arch import ArchSpecInterpreter
     from bloqade.shuttle.prelude import move
-    S = tweezer_prog.harness_spec()
+    S = c06_spec()
     fold = inp.get("fold", True)
     src = inp["src"]
     spec_src = src[:src.rindex("@move")] + f"@move(arch_spec=S, fold={fold})" + src[src.rindex("@move") + 5:]
